@@ -85,7 +85,7 @@ pub fn response_bound(pred: &[gen::PEv]) -> usize {
     for p in pred {
         match p {
             gen::PEv::Response(b) => cur += b.len(),
-            gen::PEv::ErrNext | gen::PEv::ErrCount => cur += 64,
+            gen::PEv::ErrNext | gen::PEv::ErrCount | gen::PEv::AnyResponse => cur += 64,
             gen::PEv::EndOfMessage => {
                 worst = worst.max(cur);
                 cur = 0;
@@ -797,3 +797,147 @@ pub fn c01_random_prop(model: &Model, ex: &Exec, tape: &[u32], st: &mut Stats) -
     }
     Ok(())
 }
+
+// -------------------------------------------------------------------------------------------------
+// C03
+// -------------------------------------------------------------------------------------------------
+
+use vcore::ast::ArgVal;
+use vcore::gen::Item;
+use vcore::lits::{expect, satisfies, Expect};
+use vcore::lits_c03::gen_c03_lit;
+use vcore::spec::ALL_TYS;
+
+pub fn c03_nontrivial_class(class: &str) -> bool {
+    class.contains("bound")
+        || class.contains("modulo")
+        || class.contains("power of two")
+        || class.contains("midpoint")
+        || class.contains("threshold")
+        || class.contains("subnormal")
+        || class.contains("mismatched")
+        || class.contains("non-decimal")
+        || class.contains("real-number")
+        || class.contains("other")
+        || class.contains("spelled zero")
+}
+
+/// C03 through the real parser and dispatcher: one command of `sigs`, one generated literal per
+/// parameter (or a wrong number of parameters), judged by the reference literal semantics.
+pub fn c03_sig_prop(model: &Model, ex: &Exec, sigs: &[usize], tape: &[u32], st: &mut Stats) -> Result<(), String> {
+    let mut t = Tape::new(tape);
+    let id = sigs[t.below(sigs.len())];
+    let d = &model.spec.decls[id];
+    let env = Env::new(model, ex.qcap);
+    // number of parameters supplied: usually the declared one
+    let declared = d.params.len();
+    let supplied = if t.chance(1, 8) { t.below(13) } else { declared };
+    let mut lits: Vec<Lit> = Vec::new();
+    let mut classes: Vec<&'static str> = Vec::new();
+    for i in 0..supplied {
+        let ty = if i < declared { d.params[i] } else { ALL_TYS[t.below(ALL_TYS.len())] };
+        let (l, c) = gen_c03_lit(&mut t, ty);
+        lits.push(l);
+        classes.push(c);
+    }
+    let (nodes, query) = parse_cmd(&d.cmd);
+    let mut msg = nodes.iter().map(|n| n.long()).collect::<Vec<_>>().join(":").into_bytes();
+    if query {
+        msg.push(b'?');
+    }
+    for (i, l) in lits.iter().enumerate() {
+        msg.push(if i == 0 { b' ' } else { b',' });
+        l.render(&mut msg);
+    }
+    msg.push(b'\n');
+    let out = (ex.run_rec)(&env, &[], &msg);
+    let its = gen::items(&out.log);
+    let ctx = |e: String| format!("{} [message '{}' declared {:?} log: {}]", e, esc(&msg), d.params, show_log(&out.log));
+    let handlers: Vec<(&usize, &Vec<ArgVal>)> = its
+        .iter()
+        .filter_map(|i| match i {
+            Item::H { id, args } => Some((id, args)),
+            _ => None,
+        })
+        .collect();
+    let errors: Vec<i16> = its
+        .iter()
+        .filter_map(|i| match i {
+            Item::E { num, .. } => Some(*num),
+            _ => None,
+        })
+        .collect();
+    if supplied != declared {
+        st.class("parameter count differs from the declaration");
+        st.nontrivial(&msg);
+        if !handlers.is_empty() {
+            return Err(ctx(format!("handler invoked with {} parameters supplied for {} declared", supplied, declared)));
+        }
+        if errors.len() != 1 {
+            return Err(ctx(format!("{} errors reported for a wrong parameter count (exactly one expected)", errors.len())));
+        }
+        return Ok(());
+    }
+    let expects: Vec<Expect> = lits.iter().zip(&d.params).map(|(l, ty)| expect(l, *ty)).collect();
+    for (c, e) in classes.iter().zip(&expects) {
+        st.class(&format!("{} -> {}", c, e.class()));
+    }
+    let any_reject = expects.iter().any(|e| matches!(e, Expect::Reject(_)));
+    let any_either = expects.iter().any(|e| matches!(e, Expect::Either(..)));
+    match handlers.as_slice() {
+        [(hid, args)] => {
+            if **hid != id {
+                return Err(ctx(format!("handler {} invoked instead of {}", hid, id)));
+            }
+            if any_reject {
+                return Err(ctx("handler invoked although a literal does not fit its parameter".into()));
+            }
+            if !errors.is_empty() {
+                return Err(ctx("handler invoked and an error reported".into()));
+            }
+            if args.len() != declared {
+                return Err(ctx(format!("handler received {} arguments", args.len())));
+            }
+            for (i, (e, got)) in expects.iter().zip(args.iter()).enumerate() {
+                let want = match e {
+                    Expect::Value(w) | Expect::Either(w, _) => w,
+                    Expect::Reject(_) => unreachable!(),
+                };
+                if !satisfies(want, got) {
+                    return Err(ctx(format!(
+                        "parameter {} written as '{}' was delivered as {} (wanted {:?})",
+                        i + 1,
+                        esc(&lits[i].rendered()),
+                        got.show(),
+                        want
+                    )));
+                }
+            }
+        }
+        [] => {
+            if !any_reject && !any_either {
+                return Err(ctx("handler not invoked although every literal fits its parameter".into()));
+            }
+            if errors.len() != 1 {
+                return Err(ctx(format!("{} errors reported for a rejected parameter list (exactly one expected)", errors.len())));
+            }
+            let mut allowed: Vec<i16> = Vec::new();
+            for e in &expects {
+                match e {
+                    Expect::Reject(n) | Expect::Either(_, n) => allowed.extend_from_slice(n),
+                    _ => {}
+                }
+            }
+            if !allowed.contains(&errors[0]) {
+                return Err(ctx(format!("rejected with error {} but the offending literals call for one of {:?}", errors[0], allowed)));
+            }
+        }
+        _ => return Err(ctx(format!("handler invoked {} times", handlers.len()))),
+    }
+    if classes.iter().any(|c| c03_nontrivial_class(c)) {
+        st.nontrivial(&msg);
+    }
+    st.sample(|| json!({ "message": esc(&msg[..msg.len().min(160)]), "classes": classes }));
+    Ok(())
+}
+
